@@ -714,11 +714,27 @@ def surfaces():
             h = np.zeros((x.size, x.size))
             h[0, 0], h[1, 1] = -2.0, 2.0
             return h
-    return Cos, Sep
+    class Bowl(Potential):
+        """f = |x|^2 / 2: positive curvature everywhere, so every uphill step is the fixed
+        positive-eigenvalue step and no subspace minimisation follows it"""
+        def __init__(self):
+            self.atomistic = False
+
+        def function(self, x):
+            return float(0.5 * x @ x)
+
+        def gradient(self, x):
+            return np.array(x, dtype=float).copy()
+
+        def hessian(self, x):
+            return np.eye(x.size)
+    return Cos, Sep, Bowl
 
 
 def make_surface(spec: dict):
-    Cos, Sep = surfaces()
+    Cos, Sep, Bowl = surfaces()
+    if spec["kind"] == "bowl":
+        return Bowl(), [(-1.0, 1.0)] * spec["d"]
     if spec["kind"] == "cos":
         return Cos(spec["d"], spec["seed"]), [(-2.0, 2.0)] * spec["d"]
     if spec["kind"] == "camel":
@@ -734,14 +750,20 @@ def make_surface(spec: dict):
 
 def surface_specs(ctx: Ctx, n_cos: int, dims=(2, 3, 4)) -> list[dict]:
     rng = ctx.rng
-    specs = [{"kind": "camel"}, {"kind": "sep", "c": [0.5]}, {"kind": "sep", "c": [0.5, -0.25]},
+    # "bowl" with a loose tolerance converges right after its first (positive-curvature) step:
+    # started next to a face, that step is the one `move_to_bounds` has to bring back
+    specs = [{"kind": "bowl", "d": 2, "tol": 8.0, "near_face": True}, {"kind": "bowl", "d": 3, "tol": 8.0, "near_face": True},
+             {"kind": "camel"}, {"kind": "sep", "c": [0.5]}, {"kind": "sep", "c": [0.5, -0.25]},
              {"kind": "sep", "c": [1.0, 1.0, -1.0]}, {"kind": "sep", "c": [-0.5, 0.25, 0.125, -1.0]}]
     for _ in range(n_cos):
         specs.append({"kind": "cos", "d": rng.choice(dims), "seed": rng.randrange(10 ** 6)})
     return specs
 
 
-def start_point(rng, bounds, on_bound_prob=0.15):
+def start_point(rng, bounds, on_bound_prob=0.15, near_face=False):
+    if near_face:
+        return [rng.choice((lo + (up - lo) * 0.01, up - (up - lo) * 0.01, lo, up)) if rng.random() < 0.7
+                else lo + (up - lo) * rng.random() for lo, up in bounds]
     x = []
     for lo, up in bounds:
         r = rng.random()
@@ -919,7 +941,7 @@ def traced_search(spec: dict, x0, np_seed: int, ts_steps: int = 40):
     d = len(bounds)
     c = StandardCoordinates(ndim=d, bounds=bounds)
     c.position = np.array(x0, dtype=float)
-    h = HEF(pot, 1e-4, ts_steps, 0.8)
+    h = HEF(pot, spec.get("tol", 1e-4), ts_steps, 0.8)
     t = Tracer(h, pot, c, None)
     np.random.seed(np_seed)
     with warnings.catch_warnings():
@@ -967,7 +989,7 @@ def corr_traced(ctx: Ctx) -> None:
     for spec in specs:
         _, bounds = make_surface(spec)
         for _ in range(ctx.scale(3, 8)):
-            x0 = start_point(rng, bounds)
+            x0 = start_point(rng, bounds, near_face=spec.get("near_face", False))
             seed = rng.randrange(2 ** 31)
             ts_steps = rng.choice((60, 60, 6))
             h, pot, c, t, ret = traced_search(spec, x0, seed, ts_steps)
@@ -1130,7 +1152,7 @@ def pred_search(spec: dict, x0, np_seed: int, ts_steps: int = 40):
     d = len(bounds)
     c = StandardCoordinates(ndim=d, bounds=bounds)
     c.position = np.array(x0, dtype=float)
-    h = HEF(pot, 1e-4, ts_steps, 0.8)
+    h = HEF(pot, spec.get("tol", 1e-4), ts_steps, 0.8)
     np.random.seed(np_seed)
     ret, err = call(h.run, c)
     if err:
@@ -1205,7 +1227,7 @@ def predicates(ctx: Ctx) -> None:
     for spec in specs:
         _, bounds = make_surface(spec)
         for _ in range(ctx.scale(3, 8)):
-            x0 = start_point(rng, bounds)
+            x0 = start_point(rng, bounds, near_face=spec.get("near_face", False))
             seed = rng.randrange(2 ** 31)
             ts_steps = rng.choice((40, 40, 5))
             r = pred_search(spec, x0, seed, ts_steps)
